@@ -52,7 +52,7 @@ def one_run(o, roots, troot, home, extra_env=None, stdin_roots=False, taskset=No
     argv = [fse(binary or common.fclones_bin())] + args
     if taskset:
         argv = [b"taskset", b"-c", taskset.encode()] + argv
-    stdin = ("\n".join(roots) + "\n").encode() if stdin_roots else None
+    stdin = b"".join(fse(rt) + b"\n" for rt in roots) if stdin_roots else None
     return run_watchdog(argv, env, troot, stdin), argv
 
 
@@ -197,6 +197,12 @@ def run_case(arg):
             r.shuffle(perm)
             settings_a.append(("roots=" + "/".join(perm), {}, {"roots": perm}))
         settings_a.append(("stdin", {}, {"stdin_roots": True}))
+        # overlapping and repeated input paths select the same files, however they are handed over
+        subs = sorted({e["p"] for e in spec["entries"] if e["t"] == "d" and "/" in e["p"] and "\n" not in e["p"]})
+        extra = [r.choice(roots)] + ([r.choice(subs)] if subs else [])
+        if not links_mode:
+            settings_a.append(("overlap", {}, {"roots": list(roots) + extra}))
+            settings_a.append(("stdin-overlap", {}, {"stdin_roots": True, "roots": list(roots) + extra}))
         settings_a.append(("taskset=0", {}, {"taskset": "0"}))
         settings_a.append(("taskset=0,1", {"threads": ["default:8,8"]}, {"taskset": "0,1"}))
         for js in (3, 17, 91):
